@@ -42,6 +42,9 @@ structure St where
   ready : Bool := false
   pref : String := "none"                      -- A's preferred_ranges configuration
   bRelayTo : Bool := false                     -- A's hostinfo for B already lists R in relayState.relays
+  xGhost : Bool := false                       -- X's tunnel was closed at A and then re-created from the re-delivered stage-0 (X itself still uses the old one)
+  xPending : Bool := false                     -- A has a pending handshake for X
+  recDis : Bool := false                       -- the Terminal relay record on A's tunnel with R is Disestablished
   deriving Repr
 
 def lookupS (l : List (Nat × String)) (k : Nat) : Option String := (l.find? (·.1 == k)).map (·.2)
@@ -91,7 +94,8 @@ def replyNode (s : St) (rx p : Nat) : String :=
   else if s.curOf rx p == "own" then toString p else "-1"
 
 def render (s : St) (rx sender : Nat) (src : String) (effs : List Effect) (rsPeers : List String)
-    (extraOut : List String := []) (extraUsed : Nat := 0) : String :=
+    (extraOut : List String := []) (extraUsed : Nat := 0) (extraDel : List String := []) (forceLh : Bool := false)
+    (pend : Bool := false) : String :=
   let tun := (effs.filter (fun e => match e with | .deliver _ => true | _ => false)).length
   let out := effs.filterMap (fun e => match e with
     | .testReply p => some ((if rx == 0 && p == 3 then "1/1>" else "4/1>") ++ replyNode s rx p)
@@ -107,8 +111,9 @@ def render (s : St) (rx sender : Nat) (src : String) (effs : List Effect) (rsPee
   let inn := effs.filterMap (fun e => match e with | .markIn p => some (peerName p) | _ => none)
   let inn := inn.filter (fun p => !del.contains p)
   let used := (effs.filter (fun e => match e with | .relayUsed _ => true | .forward _ _ => true | _ => false)).length
-  let lh := !roam.isEmpty || !del.isEmpty
-  s!"tun={tun} out={setStr (sortStr out)} del={setStr (sortStr (dedup del))} roam={setStr (sortStr roam)} in={setStr (sortStr (dedup inn))} win={setStr (sortStr (dedup inn))} rs={setStr rsPeers} lh={boolStr lh} pend=0 used={used + extraUsed} seen=0 xr=0"
+  let lh := !roam.isEmpty || !del.isEmpty || forceLh
+  let del := del ++ extraDel
+  s!"tun={tun} out={setStr (sortStr out)} del={setStr (sortStr (dedup del))} roam={setStr (sortStr roam)} in={setStr (sortStr (dedup inn))} win={setStr (sortStr (dedup inn))} rs={setStr rsPeers} lh={boolStr lh} pend={boolStr pend} used={used + extraUsed} seen=0 xr=0"
 
 /-- lookups of one level at receiver `rx`. `own` = the peer whose tunnel sealed this level. -/
 def mkLook (s : St) (rx : Nat) (relayedLevel : Bool) (src : String) (h base : SymHdr) (own : Nat)
@@ -119,7 +124,8 @@ def mkLook (s : St) (rx : Nat) (relayedLevel : Bool) (src : String) (h base : Sy
       if isRelayMsg then (if h.idx == "relay" && s.live.contains 2 then some 2 else none)
       else if h.idx == "B" && s.live.contains 1 then some 1
       else if h.idx == "R" && s.live.contains 2 then some 2
-      else if h.idx == "X" && s.live.contains 3 then some 3
+      else if h.idx == "X" && s.xGhost && own == 3 && base.idx == "X" then none   -- X's own packets still carry the old index
+      else if h.idx == "X" && (s.live.contains 3 || s.xGhost) then some 3
       else none
     else
       if isRelayMsg && h.idx == "rfwd" then some 3 else none
@@ -146,6 +152,7 @@ def kindInfo : String → Option (Nat × Nat × SymHdr × Option SymHdr)
   | "close" => some (0, 1, { type := 5, sub := 0, idx := "B" }, none)
   | "ctrl" => some (0, 1, { type := 6, sub := 0, idx := "B" }, none)
   | "rmsg" => some (0, 2, { type := 1, sub := 1, idx := "relay" }, some { type := 1, sub := 0, idx := "X" })
+  | "rclose" => some (0, 2, { type := 1, sub := 1, idx := "relay" }, some { type := 5, sub := 0, idx := "X" })
   | "fwd" => some (2, 3, { type := 1, sub := 1, idx := "rfwd" }, none)
   | _ => none
 
@@ -153,7 +160,7 @@ def kindInfo : String → Option (Nat × Nat × SymHdr × Option SymHdr)
 def advance (s : St) (rx : Nat) (src : String) (effs : List Effect) : St :=
   effs.foldl (fun s e => match e with
     | .roam p => { s with lastRoam := setS s.lastRoam (rx * 10 + p) (s.curOf rx p), cur := setS s.cur (rx * 10 + p) src }
-    | .close p => if rx == 0 then { s with live := s.live.filter (· != p) } else s
+    | .close p => if rx == 0 then { s with live := s.live.filter (· != p), recDis := s.recDis || p == 3 } else s
     | .recvErrorClose p => if rx == 0 then { s with live := s.live.filter (· != p) } else s
     | .control _ => { s with ctrlDone := true }
     | _ => s) s
@@ -193,7 +200,7 @@ def evalPkt (s : St) (kind src scope : String) (mutArgs : List String) (impl : S
   match kindInfo kind with
   | none => (s, badOp)
   | some (rx, sender, outerBase, innerBase) =>
-    let lie := scope == "lie" && kind == "rmsg"
+    let lie := scope == "lie" && (kind == "rmsg" || kind == "rclose")
     -- symbolic headers after mutation
     let outerM := if lie then some outerBase else applyMut outerBase mutArgs
     let innerM := match innerBase with
@@ -217,6 +224,8 @@ def evalPkt (s : St) (kind src scope : String) (mutArgs : List String) (impl : S
       let pkt := Pkt.mk h1 l1 innerPkt
       let effs := readOutside false pkt
       let rs := if effs.any (fun e => match e with | .control _ => true | _ => false) && !s.ctrlDone then ["B"] else []
+      -- closing the last tunnel to X disestablishes the relay record it was reached through (on R's hostinfo)
+      let rs := if rx == 0 && effs.any (fun e => match e with | .close 3 => true | _ => false) then rs ++ ["R"] else rs
       let s' := advance s rx src effs
       let model := render s' rx sender src effs rs
       let anyAuth := (Spec.Outside.levels pkt).any (fun hl => hl.2.authOK)
@@ -279,11 +288,11 @@ def evalHsdupB (s : St) (src mode : String) (impl : String) : St × Out :=
     let reached := effs.any (fun e => match e with | .handshakeIn => true | _ => false)
     let dup := reached && mode == "relay"
     let s' := advance s 0 src effs
-    let s' := if dup then { s' with bRelayTo := true } else s'
+    let s' := if dup then { s' with bRelayTo := true, recDis := false } else s'
     let extra := if dup then ["1/1>" ++ replyNode s' 0 3] else []
     -- by `relayed_via_keeps_remote` the model never moves B here; `moved` is false
     let effs' := if dup && moved then effs ++ [Effect.roam 1] else effs
-    let model := render s' 0 2 src effs' (if dup && !s.bRelayTo then ["B"] else []) extra
+    let model := render s' 0 2 src effs' ((if dup && !s.bRelayTo then ["B"] else []) ++ (if dup && s.recDis then ["R"] else [])) extra
     (s', { model := model, verdict := relayOnlyVerdict impl true ["X", "B"],
            tag := if !reached then "hsdupB:not-reached" else if dup then s!"hsdupB:already-seen-pref-{s.pref}" else "hsdupB:garbled" })
   else
@@ -324,12 +333,26 @@ def step (s : St) (args : List String) (impl : String) : St × Out :=
     -- a byte-identical stage-0 of a completed tunnel (ErrAlreadySeen): the cached response is sent again,
     -- through the relay it came in on; a garbled one fails Noise and is dropped
     let reached := effs.any (fun e => match e with | .handshakeIn => true | _ => false)
-    let extra := if reached && mode == "relay" then ["1/1>" ++ replyNode s' 0 3] else []
-    let model := render s' 0 2 src effs [] extra
+    let dup := reached && mode == "relay"
+    let extra := if dup then ["1/1>" ++ replyNode s' 0 3] else []
+    -- no tunnel to X any more (closed): the replayed stage-0 builds a new relayed tunnel (that this is possible
+    -- is C10's subject) and the relay record it arrived on is marked Established again
+    let fresh := dup && !s.live.contains 3 && !s.xGhost
+    let s' := if fresh then { s' with xGhost := true } else s'
+    -- sendHandshakeResponse through a relay marks the relay record Established again
+    let rsR := if dup && s.recDis then ["R"] else []
+    let s' := if dup then { s' with recDis := false } else s'
+    let model := render s' 0 2 src effs rsR extra 0 (if fresh then ["+X"] else []) fresh
     (s', { model := model, verdict := relayOnlyVerdict impl true,
-           tag := if !reached then "hsdup:not-reached" else if mode == "relay" then "hsdup:already-seen" else "hsdup:garbled" })
+           tag := if !reached then "hsdup:not-reached" else if fresh then "hsdup:reestablish-over-relay"
+                  else if mode == "relay" then "hsdup:already-seen" else "hsdup:garbled" })
   | ["reply"] =>
     if !s.ready then (s, badOp) else
+    if !s.live.contains 3 && !s.xGhost then
+      -- no tunnel to X: the packet is cached behind a (new) pending handshake, nothing leaves
+      let model := render s 0 0 "own" [] [] [] 0 [] false (!s.xPending)
+      ({ s with xPending := true }, { model := model, verdict := relayOnlyVerdict impl true, tag := "reply:no-tunnel" })
+    else
     -- sendInsideMessage relay branch: X has no direct remote, so the packet leaves as a relay frame to R
     let model := render s 0 0 "own" [] [] ["1/1>" ++ replyNode s 0 3] 1
     (s, { model := model, verdict := relayOnlyVerdict impl true, tag := "reply:relayed" })
